@@ -182,3 +182,37 @@ Proof.
   unfold schedule, schedule_step, heap0. cbv zeta. destruct (memT t (nexts (s i))); [reflexivity|].
   destruct (tmin (nexts (s i))) as [m|]; simpl; [destruct (tlt t m)|]; reflexivity.
 Qed.
+
+(* ---- scheduler.step: the validation of the reply; scheduler.get_outputs: the output time ---- *)
+Definition reply_of (nxt : option Z) : reply := match nxt with Some v => RInt v | None => RNone end.
+
+Theorem tie_step_reply st s i nxt t : pc (s i) = InStep -> cur (s i) = Some t ->
+  apply st s (EvStep i nxt) =
+  (let x := s i in
+   let s1 := upd s i (mkSim InStep (prog x) (nexts x) (cur x) t (newer x)) in
+   match step_reply (reply_of nxt) (thd t) (until st) (timebased st i) with
+   | StepOk sched =>
+       let s2 := match sched with Some v => schedule s1 i (world_time st i v) | None => s1 end in
+       if outreq st i then let y := s2 i in Ok (upd s2 i (mkSim InData (prog y) (nexts y) (cur y) (last y) (newer y)))
+       else finish_step st s2 i t []
+   | _ => Err (EReply i)
+   end).
+Proof.
+  intros Hp Hc. unfold apply. rewrite Hp, Hc. cbv zeta. destruct nxt as [v|]; simpl.
+  - destruct (v <=? thd t); [reflexivity|]. destruct (v <? until st); reflexivity.
+  - destruct (timebased st i); reflexivity.
+Qed.
+Theorem tie_step_reply_bad st s i t : pc (s i) = InStep -> cur (s i) = Some t ->
+  apply st s (EvStepBad i) = Err (EReply i) /\ step_reply ROther (thd t) (until st) (timebased st i) = StepErrType.
+Proof. intros Hp Hc. unfold apply. rewrite Hp, Hc. split; reflexivity. Qed.
+
+Theorem tie_output_time st s i ot ports c : pc (s i) = InData -> cur (s i) = Some c -> length c = depth st i ->
+  apply st s (EvData i ot ports) =
+  match output_time_rule ot c (thd (last (s i))) with
+  | None => Err (EOutTime i)
+  | Some ott => finish_step st s i ott ports
+  end.
+Proof.
+  intros Hp Hc Hl. unfold apply, output_time_rule. rewrite Hp, Hc. cbv zeta. rewrite Z.gtb_ltb.
+  destruct (ot <? thd (last (s i))); [reflexivity|]. unfold world_time. rewrite Hl. reflexivity.
+Qed.
